@@ -182,7 +182,23 @@ var kindRe = regexp.MustCompile(`^[a-z]+[0-9]*`)
 // kindOf maps a bk spec name to its backend kind ("diskpacked-max1" -> "diskpacked", "encrypt(blobs=...)" -> "encrypt").
 func kindOf(specName string) string { return kindRe.FindString(specName) }
 
-func newGenv(spec *bk.Spec) (*genv, error) {
+// specByName returns a private copy of the bk spec: some specs keep per-Build
+// state in closures (namespace's second namespace), so worlds must not share one.
+func specByName(name string) *bk.Spec {
+	all := bk.Specs(true)
+	for i := range all {
+		if all[i].Name == name {
+			return &all[i]
+		}
+	}
+	return nil
+}
+
+func newGenv(specName string) (*genv, error) {
+	spec := specByName(specName)
+	if spec == nil {
+		return nil, fmt.Errorf("unknown backend %q", specName)
+	}
 	e := bk.NewEnv()
 	sto, err := spec.Build(e)
 	if err != nil {
@@ -302,6 +318,11 @@ type mpPart struct {
 
 func mpBody(parts []mpPart) []byte {
 	var b bytes.Buffer
+	n := 256
+	for _, p := range parts {
+		n += len(p.data) + 256
+	}
+	b.Grow(n)
 	w := multipart.NewWriter(&b)
 	w.SetBoundary(mpBoundary)
 	for _, p := range parts {
@@ -498,10 +519,10 @@ func (g *genv) verifyRef(R blob.Ref, present bool, data []byte) *problem {
 		if err != nil {
 			return prob(true, "stored-not-fetchable", "Fetch(%v) of a legitimately stored blob failed: %v", R, err)
 		}
-		got, rerr := io.ReadAll(rc)
+		n, same, rerr := readEqual(rc, data)
 		rc.Close()
-		if rerr != nil || !bytes.Equal(got, data) || int(size) != len(data) {
-			return prob(true, "stored-bytes-differ", "Fetch(%v) returned %d bytes (size %d, read error %v) that differ from the %d legitimately stored bytes", R, len(got), size, rerr, len(data))
+		if rerr != nil || !same || int(size) != len(data) {
+			return prob(true, "stored-bytes-differ", "Fetch(%v) returned %d bytes (size %d, read error %v) that differ from the %d legitimately stored bytes", R, n, size, rerr, len(data))
 		}
 	} else if err == nil {
 		got, _ := io.ReadAll(rc)
@@ -534,6 +555,29 @@ func (g *genv) verifyRef(R blob.Ref, present bool, data []byte) *problem {
 		return prob(true, "trace-enumerate", "EnumerateBlobs lists %v although the ref was never legitimately stored", R)
 	}
 	return nil
+}
+
+var cmpBuf = make([]byte, 256<<10)
+
+// readEqual reads rc to EOF and reports whether it delivered exactly data
+// (streaming: the big scenario must not allocate 16 MiB per observation).
+func readEqual(rc io.Reader, data []byte) (n int, same bool, err error) {
+	same = true
+	for {
+		k, rerr := rc.Read(cmpBuf)
+		if k > 0 {
+			if n+k > len(data) || !bytes.Equal(cmpBuf[:k], data[n:n+k]) {
+				same = false
+			}
+			n += k
+		}
+		if rerr == io.EOF {
+			return n, same && n == len(data), nil
+		}
+		if rerr != nil {
+			return n, false, rerr
+		}
+	}
 }
 
 func (g *genv) lookup(R blob.Ref) (hs.Blob, bool) {
@@ -590,7 +634,13 @@ func (g *genv) audit(big bool) *problem {
 			}
 		}
 	} else {
+		// universe of the battery (refs fetched/stat-ed/used as cursors): a few
+		// accepted blobs and the rejected candidates; every enumeration is still
+		// compared with the complete reference map, so any extra blob shows.
 		uni := g.ref.Sorted()
+		if len(uni) > 8 {
+			uni = append(uni[:4:4], uni[len(uni)-4:]...)
+		}
 		for _, b := range g.rejected {
 			if !g.ref.Has(b) {
 				uni = append(uni, b)
